@@ -266,7 +266,7 @@ def run(ctx, rep):
         rep.floor("redacting-debug", "manual Debug impl of %s" % adt_last, len(fs), 1)
         for f in fs:
             read = set()
-            for g in [f] + [prog.fns[p] for p in prog.extent(f) if p in prog.fns and prog.fns[p].root == f.path and p != f.path]:
+            for g in prog.family(f):
                 for bb, s in g.stmts():
                     for o in s.get("o", []):
                         if "p" in o and o["p"][0] == 1:
@@ -278,7 +278,7 @@ def run(ctx, rep):
             bad = read & fields
             # nor may it hand a whole identifier-carrying value (GroupId, Group, a wrapper Event with its h tag, ...) to the formatter
             import predicates as P
-            for g in [f] + [prog.fns[p] for p in prog.extent(f) if p in prog.fns and prog.fns[p].root == f.path and p != f.path]:
+            for g in prog.family(f):
                 for c in g.live_calls():
                     if c.name in ("field", "entry", "key", "value") or (c.name.startswith("new_") and (c.resolved or "").startswith("core::fmt::rt::Argument")):
                         for a in c.args[1:] if c.name in ("field", "entry", "key", "value") else c.args:
